@@ -80,6 +80,11 @@ pub trait Scenario: Sync + Send {
     fn enumerated(&self, _tier: Tier) -> Option<u64> {
         None
     }
+    /// Cases of this scenario may kill the process (abort, stack overflow): run them in child
+    /// processes.
+    fn isolated(&self) -> bool {
+        false
+    }
 }
 
 pub fn to_value<T: serde::Serialize>(t: &T) -> Value {
